@@ -454,14 +454,36 @@ class C19(Engine):
                 self._run(kind, op["i"], op["v"], "exec", label=f"trunc@{n}/{len(data)}")
                 if self.V:
                     return
-        elif what == "xonsh_ver":
-            put(b"0.0.0-foreign" + data[nl1:], "foreign_xonsh")
+        elif what in ("xonsh_ver", "py_ver"):
+            # an entry written by ANOTHER xonsh / Python - near and far versions - holding bytecode that is
+            # not the source's (what another version's compiler would have produced is not ours to run)
+            foreign_body = marshal.dumps(compile("print('FOREIGN BYTECODE EXECUTED')\nFOREIGN = 1\n", "<foreign>", "exec"))
+            xv = data[:nl1].decode()
+            pv = data[nl1 + 1 : nl2].decode().split(".")
+            if what == "xonsh_ver":
+                stamps = (xv + "1", xv[:-1], xv + ".dev0", "0.0.0", xv.rsplit(".", 1)[0] + "." + str(int(xv.rsplit(".", 1)[1]) + 1 if xv.rsplit(".", 1)[1].isdigit() else 0), xv.upper() + "-x")
+                stamp = stamps[int(op["frac"] * len(stamps)) % len(stamps)]
+                if stamp.strip() == xv:
+                    stamp = "0.0.0"
+                put(stamp.encode() + b"\n" + data[nl1 + 1 : nl2 + 1] + foreign_body, "foreign_xonsh")
+                label = f"entry stamped by xonsh {stamp!r} (running {xv!r})"
+            else:
+                maj, mnr, mic = pv[0], pv[1], pv[2]
+                stamps = (
+                    f"{maj}.{mnr}.{int(mic) + 1}.final.0",
+                    f"{maj}.{mnr}.0.candidate.1",
+                    f"{maj}.{mnr}.{mic}.alpha.2",
+                    f"{maj}.{int(mnr) + 1}.0.final.0",
+                    f"{maj}.{int(mnr) - 1}.9.final.0",
+                    "2.7.18.final.0",
+                    f"{maj}.{mnr}",
+                    f"{maj}.{mnr}.{mic}.final.1",
+                )
+                stamp = stamps[int(op["frac"] * len(stamps)) % len(stamps)]
+                put(data[: nl1 + 1] + stamp.encode() + b"\n" + foreign_body, "foreign_python")
+                label = f"entry stamped by Python {stamp!r} (running {'.'.join(pv)!r})"
             p["foreign_version"] += 1
-            self._run(kind, op["i"], op["v"], "exec", label="foreign xonsh version")
-        elif what == "py_ver":
-            put(data[: nl1 + 1] + b"2.7.18.final.0" + data[nl2:], "foreign_python")
-            p["foreign_version"] += 1
-            self._run(kind, op["i"], op["v"], "exec", label="foreign python version")
+            self._run(kind, op["i"], op["v"], "exec", label=label)
         elif what == "garbage_header":
             put(b"\x00\xff\xfe garbage \x80\n\n" + data[nl2:], "garbage_header")
             p["garbage_header"] += 1
